@@ -602,6 +602,7 @@ RULE = (
     "answer, read-only inputs accepted), and rejected registrations leave the estimator unchanged. Non-trivial = a re-registration, an "
     "order-sensitive intermediate state (baseline with background/system adaptation), a fit() followed by default-target queries, or a system "
     "registered after other registrations."
+    " Bounds of register_system are handed over as int64 arrays / lists of ints (whole numbers) or read-only float arrays; every array handed over is byte-compared after each later step."
 )
 
 PROP = Prop(
